@@ -476,10 +476,9 @@ struct Inner {
     /// The driver called `yield_now` (it spins on something a worker has to do) and waits for the token.
     driver_yielded: bool,
     driver_looks: u64,
-    /// Threads of the process when the simulation was created, and workers spawned since: any
-    /// thread beyond that is one the simulator does not know - it may still wake a waiter.
-    threads_at_start: usize,
-    workers_spawned: usize,
+    /// Thread ids of the process when the simulation was created plus those of its workers: a
+    /// thread with another id is one the simulator does not know - it may still wake a waiter.
+    known_tids: std::collections::BTreeSet<u64>,
     finished_jobs: std::collections::BTreeSet<u64>,
     next_job_id: u64,
     policy: Policy,
@@ -730,8 +729,7 @@ impl Sim {
                 driver_futex_timeout: false,
                 driver_yielded: false,
                 driver_looks: 0,
-                threads_at_start: count_threads(),
-                workers_spawned: 0,
+                known_tids: thread_ids(),
                 finished_jobs: Default::default(),
                 next_job_id: 1,
                 policy: Policy {
@@ -875,7 +873,6 @@ impl Sim {
                 .stack_size(32 << 20)
                 .spawn(move || worker_main(sim, pool_idx, idx, p2))
                 .expect("spawn sim worker");
-            g.workers_spawned += 1;
             g.pools[a].workers.push(Worker {
                 parker,
                 deque: VecDeque::new(),
@@ -1083,7 +1080,7 @@ impl Sim {
                 }
                 let waiting_on_futex =
                     g.pools[a].workers.iter().filter(|w| w.futex.is_some()).count() + g.driver_futex.is_some() as usize;
-                let known = g.threads_at_start + g.workers_spawned;
+                let unknown_threads = thread_ids().iter().any(|t| *t == u64::MAX || !g.known_tids.contains(t));
                 let limit_ms = g.cfg.watchdog_s.saturating_mul(1000);
                 drop(g);
                 if waiting_on_futex == 0 {
@@ -1093,7 +1090,7 @@ impl Sim {
                 // does not know, nobody is left to wake them: a deadlock of the simulated program, for
                 // certain. Otherwise such a thread may still do it: wait (real time), and give up
                 // without a verdict when the watchdog's time is over.
-                if count_threads() <= known {
+                if !unknown_threads {
                     on_deadlock(waiting_on_futex);
                 }
                 if waited_ms >= limit_ms {
@@ -1545,9 +1542,12 @@ fn on_blocked() -> ! {
     std::process::exit(EXIT_BLOCKED);
 }
 
-/// Number of threads of this process.
-fn count_threads() -> usize {
-    std::fs::read_dir("/proc/self/task").map(|d| d.count()).unwrap_or(usize::MAX / 2)
+/// Kernel thread ids of this process (a listing that cannot be read counts as "somebody unknown").
+fn thread_ids() -> std::collections::BTreeSet<u64> {
+    match std::fs::read_dir("/proc/self/task") {
+        Ok(d) => d.filter_map(|e| e.ok().and_then(|e| e.file_name().to_str().and_then(|s| s.parse().ok()))).collect(),
+        Err(_) => [u64::MAX].into_iter().collect(),
+    }
 }
 
 /// Exit code for an inconsistency of the simulator itself (a harness error, never a verdict).
@@ -1578,6 +1578,10 @@ fn worker_main(sim: Arc<Sim>, pool_idx: usize, idx: usize, parker: Arc<Parker>) 
     CURRENT.with(|c| *c.borrow_mut() = Some((sim.clone(), pool_idx, idx)));
     crate::clock::set_thread_sim_time(true);
     bbguard::set_thread_worker(true);
+    {
+        let tid = unsafe { crate::sys::raw6(libc::SYS_gettid, 0, 0, 0, 0, 0, 0) } as u64;
+        sim.lock().known_tids.insert(tid);
+    }
     // wait for the first token
     sim.park_worker_initial(&parker);
     // user panics are caught where jobs run; anything that unwinds up to here is a bug of the simulator
